@@ -13,12 +13,12 @@ P = {
  "C02": dict(
   technique="model-based property testing: recording stateful callback vs explicit call-sequence model, exhaustive small scope (len<=12, all windows) plus random larger cases over all backends",
   text="Every driver entry point is run with a recording, stateful callback on every backend and output path; the recorded call sequence, arguments, slices and output placement are compared with an explicit model. Exhaustive for len 0..=12 x w 1..=len+3; random beyond.",
-  note="Polars cells limited to documented-supported paths (DESIGN 5.7); the removed argument at the single unspecified position is not compared.",
+  note="Polars cells limited to documented-supported paths (DESIGN 5.7); the removed argument at the single unspecified position is not compared. Sub out_view_placement (enumerated) writes through strided / reversed ndarray out views inside a padded sentinel buffer and checks placement and that nothing else is written.",
   ref="6 C02"),
  "C03": dict(
   technique="property-based testing (proptest) with tie-heavy / monotone-run generators vs exact per-window reference, plus coverage-guided fuzzing (libFuzzer) of the extrema state machine in the thorough tier",
   text="Generated tie-heavy, monotone-run and plateau series with null blocks; every position compared exactly (tolerance 0) with the per-window definition for min/max/arg/rank, 4 ulp for minmaxnorm and DESIGN 5.9 for zscore. Non-trivial cases are those where the cached extreme expired and ties exist.",
-  note="Omitted min_periods of the extrema family asserted for len >= w only (5.3); integer output not requested for ts_vmin/ts_vmax (5.7). Thorough tier adds 8 libFuzzer campaigns (target fz_extrema, ASan) with the same oracle.",
+  note="Omitted min_periods of the extrema family asserted for len >= w only (5.3); integer output not requested for ts_vmin/ts_vmax (5.7). Value classes include adjacent floats (spreads of a few ulps) and, in the wide_integers sub-properties, i64 series beyond 2^53 whose order statistics must stay exact. Thorough tier adds 8 libFuzzer campaigns (target fz_extrema, ASan) with the same oracle.",
   ref="6 C03, 5.3"),
  "C04": dict(
   technique="property-based testing (proptest): generated pairs with independent null patterns incl. collinear / constant windows vs per-window least squares computed with centred two-pass sums",
@@ -28,12 +28,12 @@ P = {
  "C05": dict(
   technique="property-based testing (proptest): boolean null-mask law and length law over all rolling entry points x backends x lengths incl. 0 and len<w",
   text="For every rolling entry point the output length must equal the input length and the null mask must follow from the counted valid observations, min_periods (explicit or omitted) and the intrinsic minimum; data classes make 'defined' decidable exactly.",
-  note="Extrema family with omitted min_periods only for len >= w (5.3); integer outputs only checked in the null direction.",
+  note="Extrema family with omitted min_periods only for len >= w (5.3); integer outputs only checked in the null direction. The two-series law is also run on Option element types (a null Option in a window must not panic).",
   ref="6 C05, 5.3, 5.6"),
  "C06": dict(
   technique="metamorphic property testing (proptest): prefix relation (bit-for-bit) over every cut, and pre-window-history replacement relation within the 5.9 bound (exact for extrema/rank)",
   text="Two metamorphic relations over generated inputs: f(x[..c]) == f(x)[..c] bitwise for every cut c and every rolling / lagging entry point; replacing the pre-window history by other bounded finite values changes results by at most the rounding bound (exactly nothing for min/max/arg/rank).",
-  note="Histories bounded per DESIGN 5.2; tolerance 5.9 evaluated with the magnitude of both histories.",
+  note="Histories bounded per DESIGN 5.2; tolerance 5.9 evaluated with the magnitude of both histories. Half of the float cases carry signed zeros, so the bit pattern reported by min / max must not depend on the history either.",
   ref="6 C06, 5.2"),
  "C07": dict(
   technique="differential property testing (proptest + exhaustive small scope): same logical sequence materialised in every backend / rotation / stride / chunking, results compared bitwise with the Vec reference; accessor coherence model",
@@ -43,12 +43,12 @@ P = {
  "C08": dict(
   technique="metamorphic property testing (proptest): NaN-encoding vs None-encoding of the same logical series, and null-insertion transparency",
   text="Two metamorphic relations: re-encoding nulls (NaN <-> None) or the output type changes nothing but the encoding; inserting nulls at generated positions leaves every null-aware aggregation / order statistic bitwise unchanged (index results mapped through the insertion map).",
-  note="Canonical nulls only (DESIGN 5.4).",
+  note="Some(NaN) is not generated (DESIGN 5.4); a NaN with the sign bit set (0.0/0.0 on x86-64) is a null like any other NaN and is one of the generated encodings. Relation 1 covers single-series rolling, two-series rolling (all four NaN / None input combinations, integer inputs) and mapping / aggregation.",
   ref="6 C08, 5.4"),
  "C09": dict(
   technique="stateful property testing (proptest): generated adaptor pipelines (Vec<Op> programs) and consumption scripts; safe item count vs size_hint at every consumption point; libFuzzer+ASan pipeline fuzzing in the thorough tier",
   text="For every trusted-length adaptor and random pipelines of depth 1..6, after every prefix of a consumption script the upper size hint must equal the number of items actually obtainable by safe iteration; only then are the trusted collectors run and their length/content compared.",
-  note="Oracle never trusts the hint (counts with a cap); collectors only run when the hint was verified, so a violation cannot corrupt the harness. Thorough tier adds 8 libFuzzer campaigns (fz_iter: byte-decoded pipeline programs, collectors under ASan).",
+  note="Oracle never trusts the hint (counts with a cap); collectors only run when the hint was verified, so a violation cannot corrupt the harness. Generators with non-dyadic float steps are collected through an instrumented container that compares what a trusted source announced with what it yielded; to_trust wrappers are consumed from both ends. Thorough tier adds 8 libFuzzer campaigns (fz_iter: byte-decoded pipeline programs, collectors under ASan) and a Miri tier.",
   ref="6 C09"),
  "C10": dict(
   technique="property-based testing with instrumented containers (access-log / write-log monitors) implementing the public backend traits; libFuzzer+ASan on the real containers in the thorough tier",
@@ -58,17 +58,17 @@ P = {
  "C11": dict(
   technique="property-based testing (proptest): textbook reference definitions on the non-null elements, null law, permutation invariance (metamorphic)",
   text="Each aggregation is compared with its definition on the non-null elements (pairwise-complete for two series), is null exactly below the required count, and the symmetric ones are invariant under a generated permutation.",
-  note="Plain AggBasic on null-free data (5.1); tolerance 5.9 with H=0; EPS floor band per 5.6.",
+  note="Plain AggBasic on null-free data (5.1); tolerance 5.9 with H=0; EPS floor band per 5.6. Series of 65..=400 elements in both tiers (long:* subs); infinite elements for extrema / positions / counts only; integer series up to +-2.1e9 for every aggregation with a float result (element-typed sums are outside, DESIGN 5.2).",
   ref="6 C11"),
  "C12": dict(
   technique="property-based testing (proptest): sort-based order-statistic reference and validity predicates for partitions",
   text="Quantiles, percentile-of-score, ranks compared with a sort-based reference; partitions checked by a validity predicate (exact length k+1, multiset of the k+1 smallest/largest valid values, padding only at the end, sortedness when asked).",
-  note="(n-1)q within 1e-9 of an integer accepts either neighbour (DESIGN 5.5).",
+  note="(n-1)q within 1e-9 of an integer accepts either neighbour (DESIGN 5.5). Partitions also run on non-nullable integer element types whenever k+1 <= len (no padding exists for them, 5.7).",
   ref="6 C12, 5.5"),
  "C13": dict(
   technique="property-based testing (proptest): positional reference interpreter for shift/diff/pct_change/fill/clip/abs, algebraic laws (clip idempotence, containment)",
   text="Each mapping operation is compared element by element with a positional interpreter on the logical series for lags in -len-3..=len+3 and i32::MIN/MAX, null/non-null fills, bounds in any order; length preservation and clip laws are asserted.",
-  note="pct_change within 2 ulp, everything else exact.",
+  note="pct_change within 2 ulp, everything else exact. A quarter of the float cases of the positional / order operations contain +-inf elements.",
   ref="6 C13"),
  "C14": dict(
   technique="property-based testing (proptest): unique-enclosing-bin model for vcut (values on/around edges and type extremes), run-end model for sorted unique",
@@ -78,27 +78,27 @@ P = {
  "C15": dict(
   technique="exhaustive boundary-pool enumeration plus property-based testing of cast/null algebra and comparator order axioms",
   text="All (source,target) pairs of the cast table are exercised on per-type boundary pools exhaustively and on random values: null preservation, agreement with `as`, composition through Option, predicate coherence, and preorder axioms on all triples.",
-  note="Cells documented as panicking (5.7) excluded; canonical nulls only (5.4).",
+  note="Cells documented as panicking (5.7) excluded; canonical nulls only (5.4). Five enumerated tables: numeric casts, bool / String, time types, the Number conversion helpers, IsNone laws.",
   ref="6 C15"),
  "C16": dict(
   technique="differential property testing (proptest) against chrono and an independent civil-calendar implementation; absorbing-NaT law",
   text="Unit conversions compared with floor division and with chrono's timestamp accessors on generated instants over each unit's range (negative, non-divisible, near limits); NaT must be preserved/absorbed by every conversion and operation; calendar fields compared with Hinnant's algorithm.",
-  note="Finer-unit conversions whose product overflows are outside the domain (5.8).",
+  note="Finer-unit conversions whose product overflows are outside the domain (5.8); the last values that still fit (+-(i64::MAX / ratio) and neighbours) are generated explicitly.",
   ref="6 C16, 5.8"),
  "C17": dict(
   technique="property-based testing of algebraic laws (inverse, group, distributive) and independent month arithmetic / floor-to-multiple models",
   text="Inverse laws for date-time +/- duration, group laws for durations, month addition vs independent calendar arithmetic, Time constructors/getters round trips, duration_trunc vs floor-to-multiple and calendar-period start models, on generated operands within range.",
-  note="Operands within 1678..2262 and multiples of the unit's resolution (5.8).",
+  note="Operands of the inverse / month / truncation laws within 1850..2100 plus bounded durations so that results stay inside the nanosecond range (5.8); the difference law additionally runs over (nearly) the whole range of each unit, i.e. instants up to 584 years apart for nanoseconds.",
   ref="6 C17, 5.8"),
  "C18": dict(
   technique="grammar-based and mutation-based property testing (proptest) plus coverage-guided fuzzing (libFuzzer) of the parsers; format/parse round trip",
   text="Parsers are run on generated arbitrary and near-grammar strings and must return Ok/Err without panicking; well-formed duration strings must parse to the sum of their terms; strftime -> parse round-trips at the unit's resolution.",
-  note="Totality is shown for generated strings only; round trip for years 1..=9999 (1678..2261 and the range edges for ns). Thorough tier adds 8 libFuzzer campaigns (fz_parse) on the same parser set.",
+  note="Totality is shown for generated strings only; all listed formats round-trip for years 1..=9999 (1678..2261 and the range edges for ns), the default text form also for years -400..=0 and 10000..=20000. Thorough tier adds 8 libFuzzer campaigns (fz_parse) on the same parser set.",
   ref="6 C18"),
  "C19": dict(
   technique="property-based testing (proptest): arithmetic-progression model for range/linspace, order/content model for collectors, write-log model for write_trust_iter",
   text="range/linspace/full compared with the arithmetic-progression model over small integer and dyadic float parameters; every collector compared with plain collection incl. first-error semantics; writes into an instrumented buffer must fill every slot once or fail with zero writes.",
-  note="Float ranges on dyadic grids so membership is exact.",
+  note="Float ranges on dyadic grids so membership is exact; collectors are also fed from sources whose size hint is only an upper bound (filter, flat_map, take_while).",
   ref="6 C19"),
  "C20": dict(
   technique="property-based testing (proptest): clip-to-interval predicate for winsorize, rank+Pearson model and monotone-map metamorphic relation for Spearman, bracket model and termination for half_life",
@@ -148,8 +148,6 @@ def main():
         "not_applicable": na,
         "notes": "All checks decide their property by generated-input search against an explicit oracle (property-based testing / fuzzing). Genuine defects found are repaired in /repo by 'fix:' commits and listed in /verif/known_findings.jsonl; regression inputs live in /verif/replays/<ID>/ and are re-run by every check.",
     }
-    if not na:
-        del m["not_applicable"]
     json.dump(m, open("/verif/MANIFEST.json", "w"), indent=1)
     print("claimed:", implemented, "not yet:", [x["property_id"] for x in na])
 
